@@ -74,10 +74,10 @@ let unrle (t : string) : Bytes.t =
       | _ -> failwith "bad rle") (String.split_on_char ',' t);
   Buffer.to_bytes out
 let parse_rsched (t : string) : rop list =   (* "r:5,f,0" *)
-  List.map (fun s -> if s = "f" || s = "i" || s = "t" then RFail else RGive (nat_of_int (int_of_string s)))
+  List.map (fun s -> if String.length s = 1 && s.[0] >= 'a' && s.[0] <= 'z' then RFail else RGive (nat_of_int (int_of_string s)))
     (split_on ',' (String.sub t 2 (String.length t - 2)))
 let parse_wsched (t : string) : wop list =
-  List.map (fun s -> if s = "f" || s = "i" || s = "t" then WFail else WAccept (nat_of_int (int_of_string s)))
+  List.map (fun s -> if String.length s = 1 && s.[0] >= 'a' && s.[0] <= 'z' then WFail else WAccept (nat_of_int (int_of_string s)))
     (split_on ',' (String.sub t 2 (String.length t - 2)))
 let parse_budget (t : string) : nat option = if t = "-" then None else Some (nat_of_int (int_of_string t))
 (* ---- end shared helpers ---- *)
